@@ -1,1 +1,180 @@
 // Kani contract harnesses for /repo/arrow-arith/src/aggregate.rs (child module: sees private items via super::)
+//
+// Aggregates on Int32Array / Float32Array / BooleanArray = the reduction over the NON-NULL rows (C12),
+// independent of whatever lies under null slots and of the presence of a validity buffer (C02).
+// Grid rule: the length is concrete per harness (const generic); values, validity bits and null-slot
+// payloads are symbolic; presence of a validity buffer is a const parameter.
+// Under Kani (x86-64 without avx) PREFERRED_VECTOR_SIZE = 16: nullable i32/f32 use 4 lanes, non-null f32
+// 8 lanes, non-null i32 the simple fold; so len 5 (nullable) and len 9 (non-null f32) reach the
+// lane-chunk + remainder split of aggregate_nullable_lanes / aggregate_nonnull_lanes.
+// Spec side: naive loops over the logical model Vec<Option<T>> with exact i64 sums; floats are ordered
+// by the IEEE-754 totalOrder key of support/spec.rs.
+// Not covered (cut): float `sum` (lane-wise association order is not a fold; IEEE addition is not
+// associative), product / product_checked, the ArrayAccessor / dictionary / run-end forms (sum_array...),
+// byte / string min / max.
+// Forget rule: every array / Result is mem::forget-ed.  Stubs: alloc::fmt::format.
+use super::*;
+use arrow_array::types::{Float32Type, Int32Type};
+use arrow_buffer::{BooleanBuffer, Buffer, ScalarBuffer};
+#[path = "/verif/kani/support/spec.rs"]
+mod spec;
+use spec::*;
+
+fn nulls_of(has: bool, valid: u16, len: usize) -> Option<NullBuffer> {
+    if has { Some(NullBuffer::new(BooleanBuffer::new(Buffer::from_slice_ref(&valid.to_le_bytes()), 0, len))) } else { None }
+}
+fn row_valid(has: bool, valid: u16, k: usize) -> bool { !has || (valid >> k) & 1 == 1 }
+
+// Contract (C12, C02): on an L-row Int32Array (all values, validity bits and null payloads symbolic):
+//   sum = Some(S mod 2^32), S = exact sum of the non-null values (i64); None <=> no non-null row;
+//   sum_checked = Ok(None) <=> no non-null row; Err <=> the exact running sum of the non-null values,
+//     taken in row order, leaves [i32::MIN, i32::MAX] at some prefix (in particular whenever S itself is
+//     not representable); otherwise Ok(Some(S)) - never a wrapped value;
+//   min / max = least / greatest non-null value; bit_and / bit_or / bit_xor = fold of & | ^ over the
+//     non-null values; all None <=> no non-null row.
+fn agg_i32_case<const L: usize, const HAS: bool>() {
+    let vals: [i32; L] = kani::any();
+    let valid: u16 = kani::any();
+    let arr = Int32Array::new(ScalarBuffer::from(vals.to_vec()), nulls_of(HAS, valid, L));
+    let (mut n, mut s, mut prefix_ovf) = (0usize, 0i64, false);
+    let (mut mn, mut mx) = (i64::MAX, i64::MIN);
+    let (mut band, mut bor, mut bxor) = (-1i32, 0i32, 0i32);
+    for k in 0..L {
+        if row_valid(HAS, valid, k) {
+            n += 1;
+            s += vals[k] as i64;
+            if s < i32::MIN as i64 || s > i32::MAX as i64 { prefix_ovf = true; }
+            if (vals[k] as i64) < mn { mn = vals[k] as i64; }
+            if (vals[k] as i64) > mx { mx = vals[k] as i64; }
+            band &= vals[k];
+            bor |= vals[k];
+            bxor ^= vals[k];
+        }
+    }
+    let some = n > 0;
+    assert!(sum(&arr) == if some { Some(s as i32) } else { None });
+    let sc = sum_checked(&arr);
+    match &sc {
+        Ok(None) => assert!(!some),
+        Ok(Some(v)) => assert!(some && !prefix_ovf && *v as i64 == s),
+        Err(_) => assert!(some && prefix_ovf),
+    }
+    assert!(min(&arr) == if some { Some(mn as i32) } else { None });
+    assert!(max(&arr) == if some { Some(mx as i32) } else { None });
+    assert!(bit_and(&arr) == if some { Some(band) } else { None });
+    assert!(bit_or(&arr) == if some { Some(bor) } else { None });
+    assert!(bit_xor(&arr) == if some { Some(bxor) } else { None });
+    kani::cover!(L == 0 || some);
+    kani::cover!(L == 0 || !HAS || !some);
+    kani::cover!(L < 2 || (prefix_ovf && s >= i32::MIN as i64 && s <= i32::MAX as i64) || L < 3); // prefix overflows, total fits
+    kani::cover!(L < 2 || prefix_ovf);
+    kani::cover!(L < 2 || !HAS || (some && n < L && !prefix_ovf));
+    std::mem::forget(sc);
+    std::mem::forget(arr);
+}
+macro_rules! agg_i32 {
+    ($name:ident, $l:expr, $has:expr) => {
+        #[kani::proof]
+        #[kani::unwind(12)]
+        #[kani::stub(alloc::fmt::format, stub_format)]
+        fn $name() { agg_i32_case::<$l, $has>() }
+    };
+}
+// @unit name=agg_i32_len0 props=C12,C02 kind=bounded bound=len=0_Int32 fns=sum,sum_checked,min,max,bit_and,bit_or,bit_xor,aggregate mem=4 timeout=900 tier=thorough was_quick=1 confirmed=0
+agg_i32!(agg_i32_len0, 0, false);
+// @unit name=agg_i32_len1_n props=C12,C02 kind=bounded bound=len=1_Int32_validity_buffer fns=sum,sum_checked,min,max,bit_and,bit_or,bit_xor,aggregate mem=4 timeout=900 tier=thorough was_quick=1 confirmed=0
+agg_i32!(agg_i32_len1_n, 1, true);
+// @unit name=agg_i32_len3_n props=C12,C02 kind=bounded bound=len=3_Int32_validity_buffer fns=sum,sum_checked,min,max,bit_and,bit_or,bit_xor,aggregate,aggregate_nullable_lanes mem=4 timeout=900 tier=thorough was_quick=1 confirmed=0
+agg_i32!(agg_i32_len3_n, 3, true);
+// @unit name=agg_i32_len3 props=C12,C02 kind=bounded bound=len=3_Int32_no_validity_buffer fns=sum,sum_checked,min,max,bit_and,bit_or,bit_xor,aggregate,aggregate_nonnull_simple mem=4 timeout=900 tier=thorough was_quick=1 confirmed=0
+agg_i32!(agg_i32_len3, 3, false);
+// @unit name=agg_i32_len5_n props=C12,C02 kind=bounded bound=len=5_Int32_validity_buffer_(4_lanes_+_remainder) fns=sum,sum_checked,min,max,bit_and,bit_or,bit_xor,aggregate,aggregate_nullable_lanes,aggregate_nullable_chunk,reduce_accumulators mem=4 timeout=900 tier=thorough was_quick=1 confirmed=0
+agg_i32!(agg_i32_len5_n, 5, true);
+// @unit name=agg_i32_len5 props=C12,C02 kind=bounded bound=len=5_Int32_no_validity_buffer fns=sum,sum_checked,min,max,bit_and,bit_or,bit_xor,aggregate,aggregate_nonnull_simple mem=4 timeout=900 tier=thorough was_quick=1 confirmed=0
+agg_i32!(agg_i32_len5, 5, false);
+// @unit name=agg_i32_len9_n props=C12,C02 kind=bounded bound=len=9_Int32_validity_buffer_(2_lane_chunks_+_remainder) fns=sum,sum_checked,min,max,bit_and,bit_or,bit_xor,aggregate,aggregate_nullable_lanes tier=thorough mem=6 timeout=900 confirmed=0
+agg_i32!(agg_i32_len9_n, 9, true);
+
+// Contract (C12, C10, C02): on an L-row Float32Array (every bit pattern: NaNs of both signs and all
+// payloads, +-0, infinities; validity and null payloads symbolic): min / max = the non-null element
+// with the least / greatest IEEE-754 totalOrder key (so -NaN < -inf < ... < -0 < +0 < ... < +inf < +NaN),
+// returned bit-exactly; None <=> no non-null row.
+fn agg_f32_case<const L: usize, const HAS: bool>() {
+    let bits: [u32; L] = kani::any();
+    let valid: u16 = kani::any();
+    let mut v = Vec::with_capacity(L);
+    for k in 0..L { v.push(f32::from_bits(bits[k])); }
+    let arr = Float32Array::new(ScalarBuffer::from(v), nulls_of(HAS, valid, L));
+    let (mut n, mut mn, mut mx) = (0usize, 0u32, 0u32);
+    for k in 0..L {
+        if row_valid(HAS, valid, k) {
+            if n == 0 || key32(bits[k]) < key32(mn) { mn = bits[k]; }
+            if n == 0 || key32(bits[k]) > key32(mx) { mx = bits[k]; }
+            n += 1;
+        }
+    }
+    let (rmin, rmax) = (min(&arr), max(&arr));
+    assert!(rmin.map(f32::to_bits) == if n > 0 { Some(mn) } else { None });
+    assert!(rmax.map(f32::to_bits) == if n > 0 { Some(mx) } else { None });
+    kani::cover!(n > 0 && f32::from_bits(mn).is_nan());          // negative NaN is the minimum
+    kani::cover!(n > 1 && f32::from_bits(mx).is_nan() && !f32::from_bits(mn).is_nan());
+    kani::cover!(n > 1 && mn == 0x8000_0000 && mx == 0);        // -0 < +0
+    kani::cover!(!HAS || (n > 0 && n < L) || L < 2);
+    std::mem::forget(arr);
+}
+macro_rules! agg_f32 {
+    ($name:ident, $l:expr, $has:expr) => {
+        #[kani::proof]
+        #[kani::unwind(12)]
+        fn $name() { agg_f32_case::<$l, $has>() }
+    };
+}
+// @unit name=agg_f32_len3_n props=C12,C10,C02 kind=bounded bound=len=3_Float32_validity_buffer fns=min,max,aggregate,aggregate_nullable_lanes mem=4 timeout=900 tier=thorough was_quick=1 confirmed=0
+agg_f32!(agg_f32_len3_n, 3, true);
+// @unit name=agg_f32_len5_n props=C12,C10,C02 kind=bounded bound=len=5_Float32_validity_buffer_(4_lanes_+_remainder) fns=min,max,aggregate,aggregate_nullable_lanes mem=4 timeout=900 tier=thorough was_quick=1 confirmed=0
+agg_f32!(agg_f32_len5_n, 5, true);
+// @unit name=agg_f32_len3 props=C12,C10,C02 kind=bounded bound=len=3_Float32_no_validity_buffer fns=min,max,aggregate,aggregate_nonnull_lanes mem=4 timeout=900 tier=thorough was_quick=1 confirmed=0
+agg_f32!(agg_f32_len3, 3, false);
+// @unit name=agg_f32_len9 props=C12,C10,C02 kind=bounded bound=len=9_Float32_no_validity_buffer_(8_lanes_+_remainder) fns=min,max,aggregate,aggregate_nonnull_lanes,aggregate_nonnull_chunk,reduce_accumulators tier=thorough mem=6 timeout=900 confirmed=0
+agg_f32!(agg_f32_len9, 9, false);
+
+// Contract (C12, C02): on an L-row BooleanArray (bit offset 0; all value bits, validity bits and null
+// payloads symbolic): min_boolean = bool_and = Some(all non-null rows are true), max_boolean = bool_or =
+// Some(some non-null row is true); None <=> no non-null row.
+fn agg_bool_case<const L: usize, const B: usize, const HAS: bool>() {
+    let (vals, valid): ([u8; B], [u8; B]) = (kani::any(), kani::any());
+    let nulls = if HAS { Some(NullBuffer::new(BooleanBuffer::new(Buffer::from_slice_ref(&valid), 0, L))) } else { None };
+    let arr = BooleanArray::new(BooleanBuffer::new(Buffer::from_slice_ref(&vals), 0, L), nulls);
+    let (mut n, mut all, mut any) = (0usize, true, false);
+    for k in 0..L {
+        if !HAS || bit(&valid, k) {
+            n += 1;
+            if bit(&vals, k) { any = true; } else { all = false; }
+        }
+    }
+    let want_min = if n > 0 { Some(all) } else { None };
+    let want_max = if n > 0 { Some(any) } else { None };
+    assert!(min_boolean(&arr) == want_min && bool_and(&arr) == want_min);
+    assert!(max_boolean(&arr) == want_max && bool_or(&arr) == want_max);
+    kani::cover!(n > 0 && all);
+    kani::cover!(n > 1 && any && !all);
+    kani::cover!(!HAS || n == 0);
+    kani::cover!(!HAS || (n > 0 && n < L && all));   // a false hidden under a null does not count
+    std::mem::forget(arr);
+}
+// @unit name=agg_bool_len5_n props=C12,C02 kind=bounded bound=len=5_Boolean_validity_buffer fns=min_boolean,max_boolean,bool_and,bool_or mem=4 timeout=900 tier=thorough was_quick=1 confirmed=0
+#[kani::proof]
+#[kani::unwind(12)]
+fn agg_bool_len5_n() { agg_bool_case::<5, 1, true>() }
+// @unit name=agg_bool_len5 props=C12,C02 kind=bounded bound=len=5_Boolean_no_validity_buffer fns=min_boolean,max_boolean,bool_and,bool_or mem=4 timeout=900 tier=thorough was_quick=1 confirmed=0
+#[kani::proof]
+#[kani::unwind(12)]
+fn agg_bool_len5() { agg_bool_case::<5, 1, false>() }
+// @unit name=agg_bool_len70_n props=C12,C02 kind=bounded bound=len=70_Boolean_validity_buffer_(one_64-bit_chunk_+_6_remainder_bits) fns=min_boolean,max_boolean,bool_and,bool_or tier=thorough mem=6 timeout=900 confirmed=0
+#[kani::proof]
+#[kani::unwind(72)]
+fn agg_bool_len70_n() { agg_bool_case::<70, 9, true>() }
+// @unit name=agg_bool_len70 props=C12,C02 kind=bounded bound=len=70_Boolean_no_validity_buffer_(one_64-bit_chunk_+_6_remainder_bits) fns=min_boolean,max_boolean,bool_and,bool_or tier=thorough mem=6 timeout=900 confirmed=0
+#[kani::proof]
+#[kani::unwind(72)]
+fn agg_bool_len70() { agg_bool_case::<70, 9, false>() }
